@@ -342,6 +342,9 @@ def problems():
     P.append(dict(name="d2-noncon", D=2, box=box(2), x0=[0.5, 0.25], target="corner", budget=70, opts={}, con="halfplane"))
     P.append(dict(name="d3-ratio124-complete", D=3, box=box(3), x0=[1.5, -1.0, 0.5], target="rosen", budget=110,
                   opts=dict(search_grid_number=-2, search_grid_multiplier=1, complete_poll=True)))
+    # longer noisy runs: the end-of-iteration re-estimation can move the incumbent BACK to an earlier iterate; the next poll must be centred there
+    P.append(dict(name="d2-noisy-rosen-long", D=2, box=box(2), x0=[1.0, -0.5], target="noisy_rosen", budget=120, opts=dict(uncertainty_handling=True)))
+    P.append(dict(name="d3-noisy-long", D=3, box=box(3), x0=[1.0, 1.0, -0.5], target="noisy", budget=110, opts=dict(uncertainty_handling=True)))
     # the non-default option force_poll_mesh=True snaps the poll set to the SEARCH grid (a no-op for an incumbent that is on it)
     P.append(dict(name="d3-force-poll-mesh", D=3, box=box(3), x0=[0.7, -0.3, 1.1], target="rosen", budget=90, opts=dict(force_poll_mesh=True)))
     P.append(dict(name="d2-force-poll-mesh-boundary", D=2, box=box(2), x0=[0.5, 0.25], target="corner", budget=70, opts=dict(force_poll_mesh=True)))
@@ -365,7 +368,10 @@ def _target(kind, seed):
 
     def noisy(x):
         return quad(x) + 0.3 * float(r.randn())
-    return dict(quad=quad, rosen=rosen, corner=corner, noisy=noisy)[kind]
+
+    def noisy_rosen(x):
+        return rosen(x) / 20.0 + 0.3 * float(r.randn())
+    return dict(quad=quad, rosen=rosen, corner=corner, noisy=noisy, noisy_rosen=noisy_rosen)[kind]
 
 
 def run_bads(prob, seed):
